@@ -108,10 +108,10 @@ def _replay(ctx, items):
 
 def input_class(c):
     s = c["s"]
-    if any(s[i:i + 3] == ["CR", "CR", "LF"] for i in range(len(s))):
-        return "cr-before-crlf"
     if "NUL" in s:
         return "binary"
+    if any(s[i:i + 3] == ["CR", "CR", "LF"] for i in range(len(s))):
+        return "cr-before-crlf"
     return "other-text"
 
 
